@@ -218,6 +218,7 @@ type Envelope struct {
 	Twice   bool `json:"twice,omitempty"`    // the query is executed twice on the same input object
 	Prior   bool `json:"prior,omitempty"`    // the same query text ran before, in this process, on a different document
 	Again   bool `json:"again,omitempty"`    // the constructed Query object is executed a second time
+	Respell bool `json:"respell,omitempty"`  // keywords in lower case, blanks between tokens turned into tabs / line feeds (outside quotes)
 	Side    Opts `json:"side,omitempty"`     // side-channel options (UnReportedErrors / CompletedCallback / WithVars / WithConstants)
 }
 
@@ -225,8 +226,8 @@ func genEnvelope(t *rapid.T, label string) Envelope {
 	if rapid.IntRange(0, 2).Draw(t, label+".plain") != 0 {
 		return Envelope{}
 	}
-	b := rapid.IntRange(1, 127).Draw(t, label+".bits")
-	e := Envelope{PG: b&1 != 0, Arrays: b&2 != 0, Wrapped: b&4 != 0, MapRows: b&8 != 0, Twice: b&16 != 0, Prior: b&32 != 0, Again: b&64 != 0}
+	b := rapid.IntRange(1, 255).Draw(t, label+".bits")
+	e := Envelope{PG: b&1 != 0, Arrays: b&2 != 0, Wrapped: b&4 != 0, MapRows: b&8 != 0, Twice: b&16 != 0, Prior: b&32 != 0, Again: b&64 != 0, Respell: b&128 != 0}
 	if rapid.Bool().Draw(t, label+".side") {
 		sb := rapid.IntRange(1, 15).Draw(t, label+".sidebits")
 		e.Side = Opts{Unreported: sb&1 != 0, Callback: sb&2 != 0, Vars: sb&4 != 0, Consts: sb&8 != 0}
@@ -236,7 +237,7 @@ func genEnvelope(t *rapid.T, label string) Envelope {
 
 func (e Envelope) Labels() []string {
 	var l []string
-	for name, on := range map[string]bool{"envelope:PostgresEscapingDialect": e.PG, "envelope:IdiomaticArrays": e.Arrays, "envelope:Wrapped": e.Wrapped, "envelope:[]map-tables": e.MapRows, "envelope:executed-twice": e.Twice, "envelope:same-query-object-executed-again": e.Again, "envelope:same-text-ran-before-on-other-document": e.Prior} {
+	for name, on := range map[string]bool{"envelope:PostgresEscapingDialect": e.PG, "envelope:IdiomaticArrays": e.Arrays, "envelope:Wrapped": e.Wrapped, "envelope:[]map-tables": e.MapRows, "envelope:executed-twice": e.Twice, "envelope:same-query-object-executed-again": e.Again, "envelope:keywords-lower-case-and-other-white-space": e.Respell, "envelope:same-text-ran-before-on-other-document": e.Prior} {
 		if on {
 			l = append(l, name)
 		}
@@ -283,6 +284,9 @@ func (e Envelope) Exec(doc map[string]any, sql string) Out {
 			}
 			return m
 		})
+	}
+	if e.Respell {
+		sql = respell(sql)
 	}
 	if e.Prior {
 		// what a text returns depends on the document of the call at hand only: the outcome of this run is ignored
@@ -338,4 +342,61 @@ func priorDoc(doc map[string]any) map[string]any {
 		}
 	}
 	return d
+}
+
+var respellWords = map[string]bool{"SELECT": true, "FROM": true, "WHERE": true, "AND": true, "OR": true, "NOT": true, "IN": true, "IS": true, "NULL": true, "AS": true, "GROUP": true, "BY": true, "HAVING": true,
+	"ORDER": true, "LIMIT": true, "OFFSET": true, "DISTINCT": true, "UNION": true, "ALL": true, "JOIN": true, "LEFT": true, "RIGHT": true, "INNER": true, "OUTER": true, "ON": true, "CASE": true, "WHEN": true, "THEN": true,
+	"ELSE": true, "END": true, "BETWEEN": true, "LIKE": true, "EXISTS": true, "WITH": true, "ASC": true, "DESC": true, "TRUE": true, "FALSE": true, "DIV": true}
+
+// respell rewrites a statement without changing what it says: outside quoted text, the listed keywords are written
+// in lower case and every second blank becomes a line feed plus tab. Identifiers, function names, qualifiers
+// (ASYNC. ...), PARALLEL / HASH_JOIN / STRAIGHT_JOIN and literals are left as they are.
+func respell(sql string) string {
+	var sb strings.Builder
+	var q byte
+	blanks := 0
+	i := 0
+	for i < len(sql) {
+		ch := sql[i]
+		switch {
+		case q != 0:
+			sb.WriteByte(ch)
+			if ch == '\\' && q != '`' && i+1 < len(sql) {
+				i++
+				sb.WriteByte(sql[i])
+			} else if ch == q {
+				q = 0
+			}
+			i++
+		case ch == '\'' || ch == '"' || ch == '`':
+			q = ch
+			sb.WriteByte(ch)
+			i++
+		case ch == ' ':
+			blanks++
+			if blanks%2 == 0 {
+				sb.WriteString("\n\t")
+			} else {
+				sb.WriteByte(' ')
+			}
+			i++
+		case ch >= 'A' && ch <= 'Z' || ch >= 'a' && ch <= 'z' || ch == '_':
+			j := i
+			for j < len(sql) && (sql[j] >= 'A' && sql[j] <= 'Z' || sql[j] >= 'a' && sql[j] <= 'z' || sql[j] >= '0' && sql[j] <= '9' || sql[j] == '_') {
+				j++
+			}
+			w := sql[i:j]
+			prevDot := i > 0 && sql[i-1] == '.'
+			nextDotOrParen := j < len(sql) && (sql[j] == '.' || sql[j] == '(')
+			if respellWords[w] && !prevDot && !nextDotOrParen {
+				w = strings.ToLower(w)
+			}
+			sb.WriteString(w)
+			i = j
+		default:
+			sb.WriteByte(ch)
+			i++
+		}
+	}
+	return sb.String()
 }
